@@ -609,6 +609,51 @@ class _M23:
     norm = staticmethod(_rewrite(_dot_value_pattern_bad, _dot_fix))
 
 
+
+def _compat_const(n):
+    return n["t"] in ("Sym", "Kw") and n["v"] not in CONSTS[:3] and G.nk(n["v"]) in CONSTS[:3]
+
+
+def _ascii_consts(n):
+    return G.map_ir(n, lambda x: dict(x, v=G.nk(x["v"])) if _compat_const(x) else x)
+
+
+def _binding_site_fix(n):
+    """Respell compatibility-spelled constants only where a *name is bound or defined*
+    (the alias name of deftype, :tp lists, anything inside a match form) - the sites that
+    go through _nonconst / compile_pattern. A constant in a plain value position is not
+    this mechanism."""
+    h = G.head_of(n)
+    if h == "match":
+        return _ascii_consts(n)
+    if n["t"] != "Expr":
+        return n
+    idx = set(_tp_lists(n))
+    kids = [_ascii_consts(c) if (i in idx or (h == "deftype" and i >= 1 and c["t"] == "Sym")) else c
+            for i, c in enumerate(n["c"])]
+    return dict(n, c=kids)
+
+
+def _binding_site_norm(ir):
+    return G.map_ir(ir, _binding_site_fix)
+
+
+@mechanism("constant-name-check-ignores-mangling", r"V:py:ValueError\|identifier field can't represent '\w+' constant")
+class _M24:
+    has = staticmethod(lambda ir: _binding_site_norm(ir) != ir)
+    norm = staticmethod(_binding_site_norm)
+
+
+def _compat_wildcard(n):
+    return n["t"] == "Sym" and n["v"] != "_" and G.nk(n["v"]) == "_"
+
+
+@mechanism("match-wildcard-check-ignores-mangling", r"V:py:ValueError\|can't capture name '_' in patterns")
+class _M25:
+    has = staticmethod(_in_match(_compat_wildcard))
+    norm = staticmethod(_rewrite(_compat_wildcard, lambda n: G.S("_")))
+
+
 # --------------------------------------------------------------------- cases
 
 def cases(seed, tier, shard, nshards):
@@ -676,6 +721,9 @@ def features(ir):
             out.add("kw:" + n["v"] if n["v"] in G.SPECIAL_KWS else ("kw-empty" if n["v"] == "" else "kw-other"))
         if t == "Sym" and n["v"] in G.SPECIAL_SYMS:
             out.add("sym:" + n["v"])
+        if t in ("Sym", "Kw") and not n["v"].isascii() and G.nk(n["v"]) != n["v"]:
+            out.add("compat-spelling:" + (G.nk(n["v"]) if G.nk(n["v"]) in ("None", "True", "False", "_", "if", "class")
+                                          else "other"))
         if t in ("Int", "Float", "Complex", "Str", "Bytes"):
             out.add("lit:" + t)
         if t in ("List", "Tuple", "Set", "Dict"):
